@@ -33,6 +33,9 @@ pub enum Near {
     DoFlip,
     CdFlip,
     CaseFlip,
+    /// another name on the wire that a zone-file style printer shows alike: a dot inside a label
+    /// against a label boundary, an octet against its backslash-decimal spelling
+    PrintedAlike,
 }
 
 #[derive(Clone, Debug, Serialize, Deserialize)]
@@ -83,12 +86,25 @@ fn reply_strategy() -> impl Strategy<Value = ReplySpec> {
 }
 
 pub fn cache_case_strategy(max_steps: usize) -> impl Strategy<Value = CacheCase> {
-    let key = (name_strategy(), prop_oneof![Just(1u16), Just(28u16), Just(15u16), any::<u16>()], any::<bool>(), any::<bool>())
-        .prop_map(|(name, qtype, do_bit, cd)| KeySpec {
-            name,
-            qtype,
-            do_bit,
-            cd,
+    let key = (name_strategy(), prop_oneof![Just(1u16), Just(28u16), Just(15u16), any::<u16>()], any::<bool>(), any::<bool>(), any::<u8>())
+        .prop_map(|(mut name, qtype, do_bit, cd, shape)| {
+            // some names carry what makes two different names look alike in print: a dot or a
+            // control octet inside a label
+            if let Some(l) = name.first_mut() {
+                if l.len() < 60 {
+                    match shape % 8 {
+                        0 => l.insert(l.len() / 2, b'.'),
+                        1 => l.insert(0, [7u8, 0, 12, 200, 31, 128][(shape / 8) as usize % 6]),
+                        _ => {}
+                    }
+                }
+            }
+            KeySpec {
+                name,
+                qtype,
+                do_bit,
+                cd,
+            }
         });
     let near = prop_oneof![
         8 => Just(Near::Exact),
@@ -98,6 +114,7 @@ pub fn cache_case_strategy(max_steps: usize) -> impl Strategy<Value = CacheCase>
         2 => Just(Near::DoFlip),
         2 => Just(Near::CdFlip),
         1 => Just(Near::CaseFlip),
+        2 => Just(Near::PrintedAlike),
     ];
     let step = prop_oneof![
         10 => (any::<u16>(), near, reply_strategy()).prop_map(|(key, near, reply)| CStep::Query { key, near, reply }),
@@ -130,6 +147,34 @@ fn near_key(k: &KeySpec, n: &Near) -> KeySpec {
         Near::OtherType => k.qtype = k.qtype.wrapping_add(1),
         Near::DoFlip => k.do_bit = !k.do_bit,
         Near::CdFlip => k.cd = !k.cd,
+        Near::PrintedAlike => {
+            let esc = k.name.iter().position(|l| l.iter().any(|b| !(32..=127).contains(b)));
+            let dotted = k.name.iter().position(|l| l.len() >= 3 && l[1..l.len() - 1].contains(&b'.'));
+            if let Some(i) = esc.filter(|i| k.name[*i].len() <= 59) {
+                let l = &k.name[i];
+                let j = l.iter().position(|b| !(32..=127).contains(b)).unwrap();
+                let mut n = l[..j].to_vec();
+                n.extend_from_slice(format!("\\{}", l[j]).as_bytes());
+                n.extend_from_slice(&l[j + 1..]);
+                k.name[i] = n;
+            } else if let Some(i) = dotted {
+                let l = k.name[i].clone();
+                let j = 1 + l[1..l.len() - 1].iter().position(|b| *b == b'.').unwrap();
+                k.name[i] = l[..j].to_vec();
+                k.name.insert(i + 1, l[j + 1..].to_vec());
+            } else if k.name.len() >= 2 && k.name[0].len() + k.name[1].len() < 63 {
+                let second = k.name.remove(1);
+                k.name[0].push(b'.');
+                k.name[0].extend_from_slice(&second);
+            } else if let Some(l) = k.name.first_mut() {
+                l[0] ^= 0x01;
+                if l[0] == 0 {
+                    l[0] = 2;
+                }
+            } else {
+                k.name.push(b"x".to_vec());
+            }
+        }
         Near::CaseFlip => {
             for l in k.name.iter_mut() {
                 for b in l.iter_mut() {
@@ -246,7 +291,22 @@ impl Prop for C06Cache {
                         };
                         let got = cache.lookup(&q, k.do_bit, k.cd);
                         let en = model.get(&k);
+                        // DNS names compare without regard to letter case: when another spelling
+                        // of this name has been resolved, which of the two entries serves this
+                        // query is not constrained
+                        let other_spelling = model.keys().any(|mk| {
+                            mk != &k
+                                && mk.qtype == k.qtype
+                                && mk.do_bit == k.do_bit
+                                && mk.cd == k.cd
+                                && mk.name.len() == k.name.len()
+                                && mk.name.iter().zip(k.name.iter()).all(|(a, b)| a.eq_ignore_ascii_case(b))
+                        });
                         match got {
+                            Some(_) if other_spelling => {
+                                out.class("hit-with-another-spelling-in-letter-case-resolved");
+                                continue;
+                            }
                             Some(res) => {
                                 hits += 1;
                                 let en = match en {
